@@ -101,18 +101,26 @@ Proof.
   - apply andb_false_r.
 Qed.
 
+Lemma lib_hardened_small : forall e, 0 <= fst e < H31 -> lib_hardened e = snd e.
+Proof.
+  intros e He. unfold lib_hardened. destruct (H31 <=? fst e) eqn:E; [apply Z.leb_le in E; lia|].
+  apply orb_false_r.
+Qed.
+
 Lemma lib_child_private_is_spec : forall x e,
   0 <= fst e < H31 -> lib_child_private x e = spec_ckd_priv x e.
 Proof.
   intros x e He. unfold lib_child_private, spec_ckd_priv, lib_child_number.
+  rewrite (lib_hardened_small e He).
+  destruct (H31 <=? fst e) eqn:E; [apply Z.leb_le in E; lia|]. rewrite andb_false_r.
   destruct (snd e); [rewrite lor_H31 by exact He|]; reflexivity.
 Qed.
 
 Lemma lib_child_public_is_spec : forall x e,
-  0 <= fst e < H31 -> snd e = false -> lib_child_public x e = spec_ckd_pub x e.
+  0 <= fst e < H31 -> lib_child_public x e = spec_ckd_pub x e.
 Proof.
-  intros x e He Hh. unfold lib_child_public, spec_ckd_pub. rewrite Hh.
-  destruct (H31 <? fst e) eqn:E; [apply Z.ltb_lt in E; lia | reflexivity].
+  intros x e He. unfold lib_child_public, spec_ckd_pub.
+  destruct (H31 <=? fst e) eqn:E; [apply Z.leb_le in E; lia|]. rewrite orb_false_r. reflexivity.
 Qed.
 
 (* a path of the library below a private key, all indices below 2^31: subkey derivation is spec_derive *)
@@ -147,14 +155,14 @@ Proof.
 Qed.
 
 Lemma lib_derive_public_is_spec : forall p x,
-  path_ok p -> Forall (fun e => snd e = false) p -> x_priv x = None ->
+  path_ok p -> x_priv x = None ->
   derive_with lib_subkey x p = spec_derive_pub x p.
 Proof.
-  induction p as [|e r IH]; intros x Hp Hn Hx; [reflexivity|].
-  inversion Hp as [|? ? He Hr]; subst. inversion Hn as [|? ? Hne Hnr]; subst.
+  induction p as [|e r IH]; intros x Hp Hx; [reflexivity|].
+  inversion Hp as [|? ? He Hr]; subst.
   unfold spec_derive_pub in *. simpl.
   assert (L : lib_subkey x e = spec_ckd_pub x e).
   { unfold lib_subkey. rewrite Hx. apply lib_child_public_is_spec; assumption. }
   rewrite L. destruct (spec_ckd_pub x e) as [y|] eqn:E; [|reflexivity].
-  apply IH; [exact Hr | exact Hnr | eapply spec_ckd_pub_public; eauto].
+  apply IH; [exact Hr | eapply spec_ckd_pub_public; eauto].
 Qed.
